@@ -326,6 +326,21 @@ def main():
             outputs[fname] = gen()
         except TranslateError as exc:
             errors.append(str(exc))
+    # plug-ins: every tools/translate_<topic>.py defines generate(ctx) -> {file name: text}; ctx gives the helpers of
+    # this module (read_module, module_assigns, coq_str, coq_list, TranslateError, SRC, REPO)
+    import glob
+    import importlib.util
+    here = os.path.dirname(os.path.abspath(__file__))
+    for plug in sorted(glob.glob(os.path.join(here, 'translate_*.py'))):
+        spec = importlib.util.spec_from_file_location(os.path.basename(plug)[:-3], plug)
+        mod = importlib.util.module_from_spec(spec)
+        try:
+            spec.loader.exec_module(mod)
+            outputs.update(mod.generate(sys.modules[__name__]))
+        except TranslateError as exc:
+            errors.append(f'{os.path.basename(plug)}: {exc}')
+        except Exception as exc:  # fail closed: an unexpected source shape is a broken obligation, not a crash
+            errors.append(f'{os.path.basename(plug)}: {type(exc).__name__}: {exc}')
     for fname, text in outputs.items():
         write_if_changed(os.path.join(OUT, fname), text)
     if errors:
